@@ -135,6 +135,22 @@ func genC14(g *Gen, tier string, idx int) *wire.Scenario {
 	env.Comp = spec
 	if g.P(20) {
 		env.Inputrc = append(env.Inputrc, "set completion-ignore-case on")
+		if !uni && g.P(60) {
+			// candidates in the cases applications offer them
+			for i := range spec.Cands {
+				if v := spec.Cands[i].Value; g.P(50) && len(v) > 0 {
+					nv := strings.ToUpper(v[:1]) + v[1:]
+					if g.P(30) {
+						nv = strings.ToUpper(v)
+					}
+					if !seen[nv] {
+						delete(seen, v)
+						seen[nv] = true
+						spec.Cands[i].Value = nv
+					}
+				}
+			}
+		}
 	}
 	if g.P(20) {
 		env.Inputrc = append(env.Inputrc, "set menu-complete-display-prefix on")
@@ -153,15 +169,28 @@ func genC14(g *Gen, tier string, idx int) *wire.Scenario {
 		sc.Script = append(sc.Script, tok("\r", "accept-line"))
 		x.Warm = len(sc.Script)
 	}
+	listedBefore := false
 	if uni {
 		env.History = []wire.HistSrc{{Kind: "memory", Name: "h0", Entries: []string{B}}}
 		sc.Script = append(sc.Script, tok(g.Cat.ShortSeqFor(km, "previous-history"), "previous-history"))
+	} else if lister := g.Cat.ShortSeqFor(km, Pick(g, []string{"possible-completions", "possible-completions", "menu-complete"})); typedPrefix != "" && lister != "" && g.P(20) {
+		// the candidates were listed (or the menu opened) one character earlier, and the user typed on:
+		// the completion under test must be of the word as it is now
+		rb := []rune(B)
+		for _, r := range append(append([]rune{}, rb[:c-1]...), rb[c:]...) {
+			sc.Script = append(sc.Script, tok(string(r), "self-insert"))
+		}
+		for i := len(rb) - 1; i > c-1; i-- {
+			sc.Script = append(sc.Script, tok(g.Cat.ShortSeqFor(km, "backward-char"), "backward-char"))
+		}
+		sc.Script = append(sc.Script, tok(lister, "list-before"), tok(string(rb[c-1]), "self-insert"))
+		listedBefore = true
 	} else {
 		for _, r := range B {
 			sc.Script = append(sc.Script, tok(string(r), "self-insert"))
 		}
 	}
-	for i := len([]rune(B)); i > c; i-- {
+	for i := len([]rune(B)); i > c && !listedBefore; i-- {
 		sc.Script = append(sc.Script, tok(g.Cat.ShortSeqFor(km, "backward-char"), "backward-char"))
 	}
 	x.Setup = len(sc.Script)
@@ -374,6 +403,12 @@ func genC15(g *Gen, tier string, idx int) *wire.Scenario {
 	tags := []string{""}
 	if g.P(30) {
 		tags = []string{"first", "second", "third"}[:g.Range(2, 3)]
+	} else if g.P(25) {
+		// a tag the library displays as a list when the candidates are described
+		tags = Pick(g, [][]string{{"commands"}, {"sub commands"}, {"commands", "flags"}})
+	}
+	if g.P(12) {
+		spec.List = true // the completer asks for a list
 	}
 	seen := map[string]bool{}
 	x := c15X{Dir: Pick(g, []string{"forward", "forward", "backward", "mixed"})}
